@@ -164,6 +164,18 @@ def check(run):
             run.check(okl, 'R5', 'df-option-level', so.norm + so.sig[:50], so.loc(a.site),
                       'm_dont_fragment is written for any option whose NAME has the number of the don\'t-fragment option, whatever its level: setting an unrelated socket-level option with the same number (out_of_band_inline on Linux) clears - or sets - the flag, so a datagram larger than the path MTU is forwarded although don\'t-fragment was requested',
                       'guarded by opt.level(p) == IPPROTO_IP && opt.name(p) == <option>')
+    # option numbers come from the platform's headers: a fallback #define in the library gives the don't-fragment option the
+    # number of some OTHER option of the same level on platforms that lack it (IP_DONTFRAGMENT 1 is IP_TOS on Linux)
+    import glob as _glob, re as _re, simlib as _sl2
+    ndef = 0
+    for path in sorted(_glob.glob(_sl2.REPO_PREFIX + 'include/simulator/*.hpp') + _glob.glob(_sl2.REPO_PREFIX + 'src/*.cpp')):
+        for ln, text in enumerate(open(path, errors='replace'), 1):
+            m_ = _re.match(r'\s*#\s*define\s+((?:IP|IPV6|SO|TCP|IPPROTO|SOL)_\w+)\b', text)
+            if m_:
+                ndef += 1
+                run.violation('R5', 'df-option-level', 'invented option number %s' % m_.group(1), '%s:%d' % (path, ln),
+                              'the library defines the socket-option macro %s itself: on a platform whose headers lack it the invented number belongs to a different option of the same level (IP_DONTFRAGMENT 1 == IP_TOS on Linux), and setting THAT option switches don\'t-fragment on - over-MTU datagrams are then dropped silently' % m_.group(1))
+    run.ok('R5', 'df-option-level', 'no invented option numbers', '', 'scanned the library\'s headers and sources for #define of socket-option names: %d' % ndef, nontrivial=False)
     if nw < 1:
         run.broke('no write of m_dont_fragment found in an instantiation of socket_base::set_option (tool/instantiate.cpp names it)')
     ins = [c for c in st.calls() if (c.get('callee') or '').endswith('::insert') and q.render(st, c.get('obj')) == 'p.buffer']
